@@ -46,7 +46,7 @@ def normC : Option String → Option String
 def Stmt.col : Stmt → Option String
   | .nullable _ c _ | .type_ _ c _ _ | .default _ c _ | .rename _ c _ | .comment _ c _
   | .mysqlChange _ c _ _ _ _ _ _ | .mysqlModify _ c _ _ _ _ _ | .mssqlAlter _ c _ _
-  | .mssqlAddDefault _ c _ | .mssqlDropDefault _ c | .identityAdd _ c _ _ | .identityDrop _ c
+  | .mssqlAddDefault _ c _ | .mssqlDropDefault _ _ c | .identityAdd _ c _ _ | .identityDrop _ c
   | .identityAlter _ c _ _ | .identitySet _ c _ _ => some c
   | .dropConstraint _ _ | .addConstraint _ _ _ => none
 
@@ -54,7 +54,7 @@ def Stmt.col : Stmt → Option String
 def Stmt.tref : Stmt → TRef
   | .nullable t _ _ | .type_ t _ _ _ | .default t _ _ | .rename t _ _ | .comment t _ _
   | .mysqlChange t _ _ _ _ _ _ _ | .mysqlModify t _ _ _ _ _ _ | .mssqlAlter t _ _ _
-  | .mssqlAddDefault t _ _ | .mssqlDropDefault t _ | .identityAdd t _ _ _ | .identityDrop t _
+  | .mssqlAddDefault t _ _ | .mssqlDropDefault t _ _ | .identityAdd t _ _ _ | .identityDrop t _
   | .identityAlter t _ _ _ | .identitySet t _ _ _ | .dropConstraint t _ | .addConstraint t _ _ => t
 
 /-- effect of a statement on the column it names -/
@@ -71,7 +71,9 @@ def effect (s : ColState) : Stmt → ColState
   -- without NULL / NOT NULL the nullability is reset to the session default (nullable)
   | .mssqlAlter _ _ ty n => { s with ty := ty, nullable := n.getD true }
   | .mssqlAddDefault _ _ d => { s with default := some (.plain d) }
-  | .mssqlDropDefault _ _ => { s with default := none }
+  -- the constraint is looked up by (object_id literal, col_name literal) and dropped on `t`: the batch only drops
+  -- the column's default when the looked-up table is the altered one (the column literal is checked by `applyStmt`)
+  | .mssqlDropDefault t obj _ => if obj = t then { s with default := none } else s
   | .identityAdd _ _ a st => { s with default := some (.identity a st) }
   | .identityDrop _ _ => { s with default := none }
   | .identityAlter _ _ sa ss =>
@@ -140,9 +142,15 @@ def exactOk (d : Dialect) (r : Req) (init : ColState) (o : Out) : Bool :=
   keepOk r init (final init o.stmts) o.stmts &&
   (o.err.isSome || requestedOk d r (final init o.stmts))
 
-/-- every statement carries the requested table and schema -/
+/-- further table references inside a statement (the `object_id('...')` literal of the MSSQL
+drop-default batch) -/
+def Stmt.objRefs : Stmt → List TRef
+  | .mssqlDropDefault _ obj _ => [obj]
+  | _ => []
+
+/-- every statement carries the requested table and schema, in every place it names the table -/
 def schemaOk (r : Req) (o : Out) : Bool :=
-  o.stmts.all (fun st => Stmt.tref st == tref r)
+  o.stmts.all (fun st => Stmt.tref st == tref r && (Stmt.objRefs st).all (· == tref r))
 
 /-- the column a statement refers to, including the column inside an added CHECK constraint -/
 def Stmt.colRef : Stmt → Option String
